@@ -238,8 +238,8 @@ def _ret_add(ctx, b, want0, want1):
     if len(rets) != 1 or rets[0][1] != "term" or not re.search(r"Duration as std::ops::Add>::add$", rets[0][2]["f"]):
         return False
     t = rets[0][2]
-    a0 = Slicer(ctx.w).atoms(b, t["args"][0])
-    a1 = Slicer(ctx.w).atoms(b, t["args"][1])
+    a0 = Slicer(ctx.w, into_callees=2).atoms(b, t["args"][0])
+    a1 = Slicer(ctx.w, into_callees=2).atoms(b, t["args"][1])
     return (want0 in a0 and want1 in a1 and want1 not in a0) or (want0 in a1 and want1 in a0 and want1 not in a1)
 
 
@@ -355,7 +355,40 @@ def r7(ctx, R="C05-R7"):
     ctx.floor(R, 1)
 
 
+def r9(ctx):
+    R = "C05-R9"
+    ctx.rule(R, "the step's start instant is valid only during the step: HostTimer::tick - the end-of-step accounting - clears "
+                "HostTimer::now on every path, and HostTimer::elapsed treats `no step in progress` as zero in-step progress instead of "
+                "reading a stale instant (or panicking). Host code also runs between steps - destructors executed by Sim::crash / "
+                "Sim::bounce - and must then see exactly the accumulated time: not the last tick twice, not a clock going backwards "
+                "across a bounce, not the wall clock")
+    NOW = "turmoil::host::HostTimer::now"
+    tk = ctx.body(R, "turmoil::host::HostTimer::tick")
+    el = ctx.body(R, "turmoil::host::HostTimer::elapsed")
+    if tk:
+        clears = []
+        for bb, i, s in tk.all_stmts():
+            if place_last_field(s["p"]) != NOW:
+                continue
+            o = {"k": "agg", "r": s["r"]} if s["r"]["k"] == "agg" else origin(tk, s["r"]["o"]) if s["r"]["k"] == "use" else {"k": "?"}
+            if o["k"] == "agg" and o["r"].get("variant") == "None":
+                clears.append(bb)
+        clears += [bb for bb, t in tk.calls(re.compile(r"^std::option::Option::take$")) if "field:" + NOW in Slicer(ctx.w).atoms(tk, t["args"][0])]
+        ok = bool(clears) and not always_passes(tk, clears)
+        ctx.inst(R, "tick:clears-step-instant", ok, tk.span, "the end of a step invalidates the step's start instant" if ok else
+                 "HostTimer::tick adds the tick to `elapsed` but keeps the step's start instant: a destructor run by Sim::crash / bounce after the step computes "
+                 "elapsed + (now - step start) again - the last tick counted twice (20 ms when Sim::elapsed is 15 ms), backwards across a bounce, or real time after a wall-clock pause")
+    if el:
+        exp = [bb for bb, t in el.calls(re.compile(r"^std::option::Option::(expect|unwrap)$")) if "field:" + NOW in Slicer(ctx.w).atoms(el, t["args"][0])]
+        ctx.inst(R, "elapsed:no-step-is-zero-progress", not exp, el.span, "outside a step the host clock is the accumulated time" if not exp else
+                 "HostTimer::elapsed demands a step start instant (`expect`): host code run before the first step (a destructor on crash) panics, and between steps a stale instant is used")
+    ctx.floor(R, 2)
+
+
 def run(ctx):
+    r9(ctx)
+    from . import C01
+    C01.r7(ctx, R="C05-R8")   # epoch time = epoch + sim time: the clock is never sampled outside a paused runtime
     r7(ctx)
     scan_rule(ctx, "C05")
     r5(ctx)
